@@ -36,6 +36,14 @@ CHECKS = {
    text="The real code from MIR with symbolic inputs: (a) primes and bit sizes for a symbolic curve; (b) Curve::from_str on every ASCII string of length 0..10; (c) the two template tables equal the table in doc/analysis_passes.md and find_bn254_specific_circuits flags `c = Name(x)` iff the documented table marks (name, curve), for the 26 names plus near misses and a symbolic curve; (d) find_nonstrict_binary_conversion flags Num2Bits/Bits2Num unless BN254/template/component with a known size n < 254, for ALL integers n; (e) the whole find_unconstrained_less_than pass on a 4-statement IR: an input counts as range-checked by Num2Bits(k) iff 2^k-1 <= p/2 for the curve, for ALL integers k. Counterexamples are replayed through the real parser, lifter and passes.",
    note=TB + "Oracle primes are the documented scalar field orders; the threshold K(p) is computed with exact integers. The value knowledge attached to size arguments is assumed sound (C06). Outside: non-ASCII curve names, clap's own parsing.",
    ref="DESIGN.md §3 C11"),
+ 'C12': dict(
+   text="The real CFG lifter (build_basic_blocks, visit_statement, complete_basic_block, NonEmptyVec, BasicBlock) and DominatorTree::new executed from MIR on every statement skeleton with at most 4 (thorough 5) statements - leaf | if | if-else | while, braced or bare bodies, empty blocks, any nesting; the shape index is a solver variable, one path per shape - with leaf lifting stubbed by tokens: entry without predecessor, reachability, mirrored edge sets, branch last, targets existing and in the successor set, successor counts, dominance respects index order, loop depth per statement; the dominator tree's own assertions hold. Counterexamples are replayed on the real parser + lifter (same checker on the natively built graph).",
+   note=TB + "Bounded exhaustive: the space of shapes is finite and covered completely. Outside: for/compound-assignment expansion in the parser, real leaf lifting, SSA, larger programs.",
+   ref="DESIGN.md §3 C12/C13"),
+ 'C13': dict(
+   text="Same engine run as C12 with `return` leaves: for every skeleton with at most 3 (thorough 4) statements and every sequence of <= 6 (8) symbolic branch/loop decisions (the solver forks on each), the statements a structured interpreter of the source executes up to its first return are exactly those met by walking the produced graph from the entry with the same decisions. Counterexamples are replayed on the real parser + lifter.",
+   note=TB + "Outside: for/compound-assignment expansion (ast_shortcuts), real leaf lifting, longer decision sequences, larger programs.",
+   ref="DESIGN.md §3 C12/C13"),
  'C15': dict(
    text="Symbolic execution of the MIR of DominatorTree::new / compute_dominators / compute_immediate_dominators / compute_dominance_frontier with the generic node type bound to a harness node whose predecessor set is a symbolic subset of the nodes: for every rooted digraph within the node bound (quick <=4, thorough <=5 nodes; self loops and irreducible graphs included) the dominator sets, immediate dominators, dominator-tree children and dominance frontiers equal their path definitions and the three internal assertions are unreachable.",
    note=TB + "HashSet<usize> is modelled as a bit set whose iteration order is ascending (order sensitivity is C17's subject). Graphs with more nodes are outside the claim.",
